@@ -411,6 +411,7 @@ type c03H struct {
 	pred  int64 // cross choices that matched the pre-computed generator answer
 	mis   int64
 	samp  int
+	doneA, totalA int64
 }
 
 const c03Base = int64(946684800000000000) // 2000-01-01T00:00:00Z, start of every synctest bubble
@@ -449,8 +450,9 @@ func (h *c03H) viol(sig string, idf func() string, detail string) {
 // width says how many generator answers the next Balance call must be run with: 0 when the
 // reference does not predict the cross stage; otherwise, with k = number of sub-clusters the real
 // randomSelectExclude counts as available (other, non-blackhole, weight >= 0): k answers (every
-// value of Int31()%k) in the quick tier, lcm(k, k+1) in the thorough tier (additionally every
-// value of Int31()%(k+1), i.e. exhaustive even if one more candidate were counted).
+// value of Int31()%k) in the quick tier and for crossRetry >= 2, lcm(k, k+1) in the thorough tier
+// (additionally every value of Int31()%(k+1), i.e. exhaustive even if one more candidate were
+// counted).
 func (h *c03H) width(e *c03Env, r0 int, key []byte) int {
 	first, ferr := e.bal.subClusterBalance(key)
 	st, fs := e.stage(r0, first, ferr)
@@ -463,7 +465,7 @@ func (h *c03H) width(e *c03Env, r0 int, key []byte) int {
 			k++
 		}
 	}
-	if !h.wide {
+	if !h.wide || e.cr > 1 {
 		if k < 1 {
 			k = 1
 		}
@@ -709,9 +711,11 @@ func (h *c03H) tree(idf func() string, cfg c03Cfg, mode, rm, cr int, ip net.IP, 
 func (h *c03H) partA(idx *int, maxSubs int, subWs, subWs3 []int, profs, bhProfs [][]c03Bk, retries [][2]int, maxDepth int) {
 	c03EnumCfgs(maxSubs, subWs, subWs3, profs, bhProfs, func(cfg c03Cfg) {
 		*idx++
+		h.totalA++
 		if !h.r.Mine(*idx) || h.r.Expired("part A configurations") {
 			return
 		}
+		defer func() { h.doneA++ }()
 		T := cfg.total()
 		if T == 0 {
 			// rejected by GslbClusterConf.Check and by Init; not a configuration bfe runs with
@@ -800,12 +804,12 @@ func (h *c03H) partA(idx *int, maxSubs int, subWs, subWs3 []int, profs, bhProfs 
 // 1..n = flip availability of backend i, n+1..2n = IncConnNum(i) (WLC only), last = BackendReload
 // that rotates the weight of backend 0 through 0,1,2. All sequences of length <= L ending in a
 // Balance are executed on a fresh object.
-func (h *c03H) partB(idx *int, maxN int, bws []int, L int) {
+func (h *c03H) partB(idx *int, minN, maxN int, bws []int, L int) {
 	var opts []c03Bk
 	for _, w := range bws {
 		opts = append(opts, c03Bk{w, true}, c03Bk{w, false})
 	}
-	for n := 1; n <= maxN; n++ {
+	for n := minN; n <= maxN; n++ {
 		bks := make([]c03Bk, n)
 		var rec func(i int)
 		rec = func(i int) {
@@ -1050,20 +1054,22 @@ func TestVerifC03(t *testing.T) {
 		for k, v := range h.out {
 			r.OutcomeN(k, v)
 		}
-		r.Set("balance_calls", h.calls)
-		r.Set("cross_choice_matches_enumerated_answer", h.pred)
-		r.Set("cross_choice_differs_from_enumerated_answer", h.mis)
-		r.Set("generator_answers_tabulated", len(h.tab))
+		r.Set("sum_balance_calls", h.calls)
+		r.Set("sum_cross_choice_matches_enumerated_answer", h.pred)
+		r.Set("sum_cross_choice_differs_from_enumerated_answer", h.mis)
+		r.Set("max_generator_answers_tabulated", len(h.tab))
 		if h.mis > 0 {
 			r.Cap("cross choice differs from the enumerated generator answer: the code counts other candidates than the documented ones, answers not exhaustively enumerated")
 		}
-		r.Set("blackhole_counter", state.ErrGslbBlackhole.Get())
+		r.Set("sum_bfe_blackhole_counter", state.ErrGslbBlackhole.Get())
+		r.Set("sum_part_A_configurations_done", h.doneA)
+		r.Set("max_part_A_configurations_in_bound", h.totalA)
 	}()
 
 	T, F := true, false
 	subWs := []int{-1, 0, 1, 2}
 	profsQ := [][]c03Bk{{}, {{1, T}}, {{0, T}}, {{1, F}, {2, T}}, {{2, T}, {1, T}}}
-	profsT := append(append([][]c03Bk(nil), profsQ...), []c03Bk{{1, F}}, []c03Bk{{0, T}, {1, F}}, []c03Bk{{2, T}, {0, T}, {1, F}}, []c03Bk{{-1, T}, {1, T}})
+	profsT := append(append([][]c03Bk(nil), profsQ...), []c03Bk{{1, F}}, []c03Bk{{0, T}, {1, F}}, []c03Bk{{2, T}, {0, T}, {1, F}})
 	bhProfs := [][]c03Bk{{}, {{1, T}}}
 	retriesQ := [][2]int{{0, 0}, {0, 1}, {1, 0}, {1, 1}}
 	retriesT := append(append([][2]int(nil), retriesQ...), [2]int{2, 1}, [2]int{0, 2})
@@ -1077,22 +1083,23 @@ func TestVerifC03(t *testing.T) {
 	}
 	defer lap("A")
 	if r.Thorough() {
-		h.partB(&idx, 4, []int{0, 1, 2}, 5)
+		h.partB(&idx, 1, 3, []int{-1, 0, 1, 2}, 5)
+		h.partB(&idx, 4, 4, []int{0, 1, 2}, 4)
 		lap("B")
 		h.partC(&idx, 3, subWs, 32)
 		lap("C")
 		h.partD(&idx, 3, subWs)
 		lap("D")
 		h.partA(&idx, 3, subWs, subWs, profsT, bhProfs, retriesT, 4)
-		r.Set("bounds", "A: 1-3 sub-clusters from {Asub,GSLB_BLACKHOLE,msub,zsub}, sub-cluster weights {-1,0,1,2}, 9 backend profiles (0-3 backends, weights -1..2, up/down), blackhole with/without backends, 3 modes, (retryMax,crossRetry) in {00,01,10,11,21,02}, RetryTime 0..budget+1, retry loop from RetryTime 0 to depth min(budget+2,4), lcm(k,k+1) generator answers per cross-stage call; B: 1-4 backends w{0,1,2} x up/down, op sequences <=5; C: 32 seeds; D: all Reload pairs, weights {-1,0,1,2}")
+		r.Set("bounds", "A: 1-3 sub-clusters from {Asub,GSLB_BLACKHOLE,msub,zsub}, sub-cluster weights {-1,0,1,2}, 8 backend profiles (0-3 backends, weights 0..2, up/down), blackhole with/without backends, 3 modes, (retryMax,crossRetry) in {00,01,10,11,21,02}, RetryTime 0..budget+1, retry loop from RetryTime 0 to depth min(budget+2,4), lcm(k,k+1) generator answers per cross-stage call (k for crossRetry 2); B: 1-3 backends w{-1,0,1,2} x up/down with op sequences <=5 and 4 backends w{0,1,2} with op sequences <=4; C: 32 seeds; D: all Reload pairs, weights {-1,0,1,2}")
 	} else {
-		h.partB(&idx, 3, []int{0, 1, 2}, 4)
+		h.partB(&idx, 1, 3, []int{-1, 0, 1, 2}, 4)
 		lap("B")
 		h.partC(&idx, 3, []int{0, 1, 2}, 8)
 		lap("C")
 		h.partD(&idx, 3, []int{0, 1, 2})
 		lap("D")
 		h.partA(&idx, 3, subWs, []int{0, 1, 2}, profsQ, bhProfs, retriesQ, 3)
-		r.Set("bounds", "A: 1-3 sub-clusters from {Asub,GSLB_BLACKHOLE,msub,zsub}, sub-cluster weights {-1,0,1,2} ({0,1,2} for 3-sub-cluster layouts), 5 backend profiles (0-2 backends), blackhole with/without backends, 3 modes, (retryMax,crossRetry) in {0,1}^2, RetryTime 0..budget+1, retry loop from RetryTime 0 to depth min(budget+2,3), k generator answers per cross-stage call; B: 1-3 backends w{0,1,2} x up/down, op sequences <=4; C: 8 seeds; D: all Reload pairs, weights {0,1,2}")
+		r.Set("bounds", "A: 1-3 sub-clusters from {Asub,GSLB_BLACKHOLE,msub,zsub}, sub-cluster weights {-1,0,1,2} ({0,1,2} for 3-sub-cluster layouts), 5 backend profiles (0-2 backends), blackhole with/without backends, 3 modes, (retryMax,crossRetry) in {0,1}^2, RetryTime 0..budget+1, retry loop from RetryTime 0 to depth min(budget+2,3), k generator answers per cross-stage call; B: 1-3 backends w{-1,0,1,2} x up/down, op sequences <=4; C: 8 seeds; D: all Reload pairs, weights {0,1,2}")
 	}
 }
